@@ -69,7 +69,8 @@ th("IP", "stream_identifier", "codec_streamId", "v < 2^16")
 th("IP", "lsrr ssrr record_route", "codec_route", "pointer < 2^8, 4-byte addresses; KF-C04-Ip-5 (empty route list) fixed")
 th("IP", "eol noop", "", "-", "single-byte options without a typed getter; C03/C04 reparse theorems (ip_opts_reparse_*) cover them")
 # Ip6
-th("IPv6", "hop-by-hop / destination options", "decodeOptions_roundtrip parseHeaderOptions_roundtrip", "options < 256 octets each, header 8-aligned")
+T[("IPv6", "hop-by-hop / destination options")] = ("decodeOptions_roundtrip parseHeaderOptions_roundtrip".split(),
+                                                      "options < 256 octets each, header 8-aligned", "")
 th("IPv6", "routing", "decodeRouting_roundtrip", "type, segments-left < 2^8")
 th("IPv6", "fragment", "decodeFragment_roundtrip", "offset < 2^13, id < 2^32")
 # Icmp
@@ -100,7 +101,7 @@ th("DHCP", "type", "dhcp_type_roundtrip", "v < 2^8")
 th("DHCP", "lease_time renewal_time rebind_time", "dhcp_u32_roundtrip", "v < 2^32")
 th("DHCP", "server_identifier subnet_mask broadcast requested_ip", "dhcp_ip_roundtrip", "4 octets")
 th("DHCP", "domain_name hostname", "dhcp_str_roundtrip", "any octets (≤ 255 through the wire, KF-WApp-6)")
-th("DHCP", "routers domain_name_servers", "", "list of 4-octet addresses (≤ 63)", "GAP: modelled and compared, no inverse theorem yet")
+th("DHCP", "routers domain_name_servers", "dhcp_iplist_roundtrip chunks4_enc", "list of 4-octet addresses, any length (≤ 63 through the wire, KF-WApp-6)")
 th("DHCP", "end", "", "-", "no getter")
 th("DHCPv6", "ia_ta", "decIaTa_enc", "id < 2^32, any options")
 th("DHCPv6", "preference reconfigure_msg", "decU8_enc", "v < 2^8")
@@ -112,8 +113,11 @@ th("DHCPv6", "user_class", "decUserClass_enc classData_encClassData", "non-empty
 th("DHCPv6", "vendor_class", "decVendorClass_enc classData_encClassData", "entries < 64 KiB")
 th("DHCPv6", "vendor_info", "decVendorInfo_enc", "enterprise < 2^32, any data")
 th("DHCPv6", "client_id server_id", "decDuid_enc", "DUID with at least one identifier octet (RFC 8415 §11.1)")
-th("DHCPv6", "ia_na ia_address option_request authentication", "", "fixed members + trailing octets / 16-bit list",
-   "GAP: modelled and compared, no inverse theorem yet")
+th("DHCPv6", "ia_na", "decIaNa_enc", "32-bit members, any nested options")
+th("DHCPv6", "ia_address", "decIaAddr_enc", "16-octet address, 32-bit lifetimes, any nested options")
+th("DHCPv6", "option_request", "decU16List_enc chunks2_enc", "any list of 16-bit codes")
+th("DHCPv6", "authentication", "", "8/8/8-bit members, 64-bit replay detection, any auth info",
+   "GAP: modelled and compared on every run, no inverse theorem yet")
 th("DHCPv6", "rapid_commit reconfigure_accept", "", "-", "flag options: presence is the value")
 th("RTP", "csrc_ids extension_data", "rtp_reparse", "Canon (≤ 15 CSRC ids, extension length < 2^16)", "through the wire: whole-header reparse theorem")
 # Wifi
